@@ -98,5 +98,6 @@ struct _table_super_fx table_super_fx[] =
   { "xor",   0xc0, 3, 0xf0, OP_N,       0 },
   { "romb",  0xdf, 3, 0xff, OP_NONE,    0 },
   { "getbs", 0xef, 3, 0xff, OP_NONE,    0 },
+  { NULL,    0x00, 0, 0x00, 0,          0 },
 };
 
